@@ -202,6 +202,22 @@ CLAIMED["C03"] = dict(
     technique="Lean 4 induction over the signature generator + element-rule case analysis + exact correspondence and Frenkel reference",
     ref="DESIGN.md §5 C03")
 
+CLAIMED["C10"] = dict(
+    text="Lean 4 proof: numpy.ndindex (the full vibrational state generator) contains exactly the index tuples below the declared "
+         "level counts, each once, and their number is the product of the level counts (every number of modes); the Franck-Condon "
+         "factor of two vibronic states is the product over modes of single-mode overlaps, the coupling between vibronic states of two "
+         "one-exciton states is J_kl times that product and the dipole element is the changing molecule's dipole times it (zero "
+         "otherwise); the matrix shift_operator exponentiates, c(a^T - a), is antisymmetric, hence its exponential is exactly orthogonal "
+         "for every displacement and basis size (Mathlib matrix exponential); the Poisson weights e^{-S}S^n/n! sum to one. Tied to the "
+         "code by comparing number/order of vibronic states, FC matrix, Hamiltonian and dipole operator of built aggregates with the "
+         "model fed with the truncated shift-operator tables (1e-9), and by the oracle: level counts per electronic state, stored "
+         "displacement sqrt(2S) for both call orders and state-dependent frequencies, Poisson law of the overlaps (1e-8), orthogonality "
+         "of the 100-level matrix, independent product structure. Partial: that the numerically diagonalised truncated operator "
+         "reproduces the Poisson law is measured, not proved; truncated state-generation approximations are not claimed.",
+    note="Lean kernel + standard axioms; numpy.linalg.eig/inv/exp inside shift_operator are externals (tables passed as data).",
+    technique="Lean 4 structural induction (ndindex) + product lemmas + Mathlib matrix exponential + table-driven correspondence",
+    ref="DESIGN.md §5 C10")
+
 NOT_APPLICABLE = {}
 
 
